@@ -76,6 +76,25 @@ pub use key::*;
 
 pub mod tests;
 
+/// Verification hook H3 (cfg poulpy_verif only): log of the work items the multi-threaded loops execute.
+/// Each entry is (site, thread index, item index) with site 0 = BDD circuit evaluation, 1 = integer preparation.
+#[cfg(poulpy_verif)]
+pub mod verif_partition {
+    use std::sync::Mutex;
+    static LOG: Mutex<Option<Vec<(u8, usize, usize)>>> = Mutex::new(None);
+    pub fn start() {
+        *LOG.lock().unwrap() = Some(Vec::new());
+    }
+    pub fn stop() -> Vec<(u8, usize, usize)> {
+        LOG.lock().unwrap().take().unwrap_or_default()
+    }
+    pub(crate) fn log(site: u8, thread: usize, item: usize) {
+        if let Some(v) = LOG.lock().unwrap().as_mut() {
+            v.push((site, thread, item));
+        }
+    }
+}
+
 /// Marker trait for unsigned integer types whose bits can be encrypted by [`FheUint`].
 ///
 /// Implemented for `u8`, `u16`, `u32`, `u64`, and `u128`.  The associated
